@@ -849,8 +849,11 @@ def _capacity_case(t):
         classes[f"G{i}"] = type(f"C19Cap{i}", (Component,), {"__module__": "verif_c19_cap", "template": f"<i>{i}</i>",
                                                           "js": f"cap_{i}()", "css": f".cap_{i} {{}}"})
     media_cache().clear()
-    html = mark_safe("".join(c.render(render_dependencies=False) for c in classes.values()))
-    out = render_dependencies(DOC % html if t == "document" else html, t)
+    try:
+        html = mark_safe("".join(c.render(render_dependencies=False) for c in classes.values()))
+        out = render_dependencies(DOC % html if t == "document" else html, t)
+    except Exception as e:  # noqa  - e.g. the document render cannot find a script it has just cached
+        return 2 * CAPACITY_N, f"one {t} render of {CAPACITY_N} components raised {type(e).__name__}: {str(e)[:200]}"
     urls = sorted({u for _, u in extract_urls(out)})
     bad = [p for p in (check_served(u, classes) for u in urls) if p]
     return len(urls), (f"{len(bad)} of the {len(urls)} URLs announced by one {t} render of {CAPACITY_N} components are not served; first: {bad[0]}" if bad else None)
